@@ -51,9 +51,9 @@ class BirthDeathModel(CallableModel):
         )
 
     def _call(self):
-        lambda_ = self.R.tensor * self.delta.tensor
-        mu = self.delta.tensor - self.s.tensor * self.delta.tensor
-        psi = self.s.tensor * self.delta.tensor
+        lambda_ = self.lambda_.tensor
+        mu = self.mu.tensor
+        psi = self.psi.tensor
         if self.rho.shape[-1] != lambda_.shape[-1]:
             rho = torch.cat(
                 (
@@ -191,14 +191,22 @@ class BirthDeath(Distribution):
         ).sum(-1)
 
         y = self.origin - tip_heights
-        if serially_sampled:
+        # tips at the present are sampled with probability rho (when rho > 0),
+        # the others through time with rate psi
+        is_rho_tip = (tip_heights == 0.0).logical_and(self.rho > 0.0)
+        if serially_sampled or not torch.all(is_rho_tip):
             log_p += (
-                torch.log(self.psi)
-                - self.log_q(
-                    A,
-                    B,
-                    y,
-                    self.origin,
+                (
+                    torch.log(self.psi)
+                    - self.log_q(
+                        A,
+                        B,
+                        y,
+                        self.origin,
+                    )
                 )
+                * (~is_rho_tip)
             ).sum(-1)
+        if torch.any(is_rho_tip):
+            log_p += (is_rho_tip * torch.log(self.rho)).sum(-1)
         return log_p
